@@ -643,7 +643,15 @@ fn gen_batch_check(rng: &mut Rng) -> (u64, u64, u64) {
         1 => rng.below(20),
         _ => rng.below(80),
     };
-    (a as u64, if rng.chance(1, 2) { u64::MAX } else { rng.below(a + 1) as u64 }, rng.below(8) as u64)
+    // the invalid element sits at the very end in four of ten cases (a dropped tail is the
+    // characteristic failure of chunked parallel loops), at the front in one
+    let b = match rng.below(10) {
+        0..=2 => u64::MAX,
+        3..=6 => a.saturating_sub(1) as u64,
+        7 => 0,
+        _ => rng.below(a + 1) as u64,
+    };
+    (a as u64, b, rng.below(8) as u64)
 }
 
 // ---------------------------------------------------------------- multilinear / multivariate
@@ -762,7 +770,7 @@ pub fn kinds() -> Vec<KindInfo> {
         KindInfo { name: "normalize", prop: "C14", expect: None, weight: 5, gen: gen_normalize, run: run_normalize, doc: "normalize_batch on SW (G1, G2) and TE; a=length" },
         KindInfo { name: "pairing", prop: "C14", expect: None, weight: 4, gen: gen_pairing, run: run_pairing, doc: "multi_miller_loop / multi_pairing; a=#pairs b=identity mask c: bit0 full pairing, bits1+ curve (BLS12-381, BN254, BLS12-377, BW6-761, MNT4-298, MNT6-298)" },
         KindInfo { name: "hash_to_curve", prop: "C14", expect: None, weight: 2, gen: gen_h2c, run: run_h2c, doc: "RFC 9380 hash to BLS12-381 G1/G2 (batched inversion inside the isogeny map with pools larger than its input); a=message length" },
-        KindInfo { name: "batch_check", prop: "C14", expect: None, weight: 5, gen: gen_batch_check, run: run_batch_check, doc: "Vec/array/tuple of points deserialized with Validate::Yes; a=length b=position of an out-of-subgroup point (MAX = none)" },
+        KindInfo { name: "batch_check", prop: "C14", expect: None, weight: 8, gen: gen_batch_check, run: run_batch_check, doc: "Vec/array/tuple of points deserialized with Validate::Yes; a=length b=position of an out-of-subgroup point (MAX = none)" },
         KindInfo { name: "mle", prop: "C14", expect: None, weight: 4, gen: gen_mle, run: run_mle, doc: "DenseMultilinearExtension add/sub/neg/scale/relabel/fix_variables/evaluate; a=num_vars" },
         KindInfo { name: "sparse_mle", prop: "C14", expect: None, weight: 3, gen: gen_sparse_mle, run: run_sparse_mle, doc: "SparseMultilinearExtension arithmetic/fix_variables/evaluate; a=num_vars b=non-zero entries" },
         KindInfo { name: "mv_sparse", prop: "C14", expect: None, weight: 2, gen: gen_mv_sparse, run: run_mv_sparse, doc: "multivariate SparsePolynomial evaluate/add/neg; a=#terms b=#vars" },
